@@ -737,3 +737,728 @@ func ruleW8(c *an.Ctx) {
 		c.Check("W8", "walk-root-not-followed@Walk", fn.Pos(), usesLstat, "the root is neither opened with O_NOFOLLOW nor examined with Lstat: not decided, reported")
 	}
 }
+
+// loopEntryBarrier returns a BarrierEdge that holds on the edges entering a loop whose body
+// contains an instruction satisfying pred: with nothing to iterate over there is nothing to do.
+func loopEntryBarrier(fn *ssa.Function, pred func(ssa.Instruction) bool) func(from, to *ssa.BasicBlock) bool {
+	loops := map[*ssa.BasicBlock]map[*ssa.BasicBlock]bool{}
+	for hd, body := range naturalLoops(fn) {
+		for b := range body {
+			for _, in := range b.Instrs {
+				if pred(in) {
+					loops[hd] = body
+				}
+			}
+		}
+	}
+	return func(from, to *ssa.BasicBlock) bool {
+		body, ok := loops[to]
+		return ok && !body[from]
+	}
+}
+
+// F15 (C06): every refresh of the journal advances the refresh time of every frontier job.
+// Metadata.endRefresh is the only writer of lastRefresh, and checkHeartbeat fails a job that has
+// gone silent by comparing lastRefresh with the last heartbeat.  If the end-of-refresh pass is made
+// conditional (round 9: only for job managers that can query their queue), lastRefresh stays zero
+// for everybody else and a job that dies without writing anything is never failed: the pipestance
+// hangs in `running`.
+// Rule: in Node.refreshState every return other than the one taken when the journal directory
+// could not be read has passed the endRefresh pass (the loop over the frontier nodes that calls it).
+func ruleF15(c *an.Ctx) {
+	fn := c.P.Func(pkgCore, "(*Node).refreshState")
+	end := c.P.Func(pkgCore, "(*Metadata).endRefresh")
+	if fn == nil || end == nil {
+		c.Info("F15", "anchor(refreshState/endRefresh)", 0, "not found: not decided")
+		return
+	}
+	isEnd := func(in ssa.Instruction) bool {
+		cl := an.AsCallAny(in)
+		if cl == nil {
+			return false
+		}
+		h := cl.Common().StaticCallee()
+		if h == end {
+			return true
+		}
+		return h != nil && h.Blocks != nil && h.Pkg == fn.Pkg && h != fn && an.MayDo(h, func(x ssa.Instruction) bool {
+			c2 := an.AsCallAny(x)
+			return c2 != nil && c2.Common().StaticCallee() == end
+		}, 1)
+	}
+	if !an.MayDo(fn, isEnd, 0) {
+		c.Fail("F15", "refresh-time-advanced-on-every-refresh@(*Node).refreshState", fn.Pos(),
+			"refreshState never calls Metadata.endRefresh: lastRefresh is never set, the heartbeat timeout cannot fire")
+		return
+	}
+	entry := loopEntryBarrier(fn, isEnd)
+	n := 0
+	an.Instrs(fn, func(in ssa.Instruction) {
+		r, ok := in.(*ssa.Return)
+		if !ok {
+			return
+		}
+		// the error exit: guarded by err != nil
+		if onErr, _ := an.GuardedBy(r, func(rel an.Rel) bool {
+			return rel.Op == token.NEQ && (an.IsNil(rel.Y) && isErrorT(rel.X.Type()) || an.IsNil(rel.X) && isErrorT(rel.Y.Type()))
+		}); onErr {
+			return
+		}
+		n++
+		w := an.Query{Fn: fn, Target: func(x ssa.Instruction) bool { return x == ssa.Instruction(r) }, Barrier: isEnd, BarrierEdge: entry}.Find()
+		pos := r.Pos()
+		if !pos.IsValid() {
+			pos = fn.Pos()
+		}
+		c.Check("F15", fmt.Sprintf("refresh-time-advanced-on-every-refresh@(*Node).refreshState#%d", n), pos, w == nil,
+			"a refresh can finish without the end-of-refresh pass over the frontier jobs: Metadata.endRefresh is the only writer of lastRefresh, so for the job managers that take this path the heartbeat comparison never fails a job that died silently and the pipestance stays `running` for ever; "+c.WitnessString(w))
+	})
+	if n == 0 {
+		c.Info("F15", "anchor(returns of refreshState)", 0, "none: not decided")
+	}
+}
+
+// W9 (C14): an empty set of outputs is not a missing one.  cacheParamFileMap builds the table of
+// files a fork's VDR may remove (every file of the stage, with what keeps it alive).  It gives up
+// only when the outs could not be read at all (nil).  A stage without out parameters has `{}`:
+// treated like nil, the table is never built, vdrKillSome finds nothing and still writes its final
+// report - every file such a volatile stage wrote survives and the report under-counts.
+// Rule: every return of cacheParamFileMap that has not stored Fork.fileParamMap is guarded by a
+// comparison of the outs with nil (not by their length).
+func ruleW9(c *an.Ctx) {
+	fn := c.P.Func(pkgCore, "(*Fork).cacheParamFileMap")
+	fpm := c.P.Field(pkgCore, "Fork", "fileParamMap")
+	if fn == nil || fpm == nil {
+		c.Info("W9", "anchor(cacheParamFileMap)", 0, "not found: not decided")
+		return
+	}
+	stored := func(in ssa.Instruction) bool {
+		st, ok := in.(*ssa.Store)
+		if !ok {
+			return false
+		}
+		_, f := an.FieldOfAddr(st.Addr)
+		return f == fpm
+	}
+	n := 0
+	an.Instrs(fn, func(in ssa.Instruction) {
+		r, ok := in.(*ssa.Return)
+		if !ok {
+			return
+		}
+		w := an.Query{Fn: fn, Target: func(x ssa.Instruction) bool { return x == ssa.Instruction(r) }, Barrier: stored}.Find()
+		if w == nil {
+			return
+		}
+		n++
+		g, _ := an.GuardedBy(r, func(rel an.Rel) bool {
+			if rel.Op != token.EQL {
+				return false
+			}
+			isMap := func(v ssa.Value) bool { _, ok := v.Type().Underlying().(*types.Map); return ok }
+			return an.IsNil(rel.Y) && isMap(rel.X) || an.IsNil(rel.X) && isMap(rel.Y)
+		})
+		pos := r.Pos()
+		if !pos.IsValid() {
+			pos = fn.Pos()
+		}
+		c.Check("W9", fmt.Sprintf("gives-up-only-without-outs@(*Fork).cacheParamFileMap#%d", n), pos, g,
+			"the table of removable files is not built on a path that is not restricted to `outs == nil`: a stage whose outs are the empty object (no out parameters) is skipped, its files are never removed although nothing needs them, and the final report under-counts")
+	})
+	if n == 0 {
+		c.Pass("W9", "file-table-always-built@(*Fork).cacheParamFileMap", fn.Pos(), "every return has stored the table")
+	}
+}
+
+// Q18 (C09): the sign of a resource request survives formatting.  A negative mem_gb is an adaptive
+// request (another meaning than the positive value).  formatGB prints the whole GB with AppendInt
+// and the fraction separately; the integer part of a value in (-1, 0) is 0 and carries no sign, so
+// the sign must be written explicitly.
+// Rule: if formatGB formats an integer part (strconv.AppendInt / FormatInt / Itoa), it writes the
+// constant '-' on the edge where its parameter is negative.
+func ruleQ18(c *an.Ctx) {
+	fn := c.P.Func(pkgSyntax, "formatGB")
+	if fn == nil {
+		c.Info("Q18", "anchor(formatGB)", 0, "not found: not decided")
+		return
+	}
+	var gb ssa.Value
+	for _, prm := range fn.Params {
+		if b, ok := prm.Type().Underlying().(*types.Basic); ok && b.Info()&types.IsFloat != 0 {
+			gb = prm
+		}
+	}
+	if gb == nil {
+		c.Info("Q18", "anchor(float parameter of formatGB)", 0, "not found: not decided")
+		return
+	}
+	usesInt := an.MayDo(fn, func(in ssa.Instruction) bool {
+		return staticCalleeIs(in, "strconv", "AppendInt") != nil || staticCalleeIs(in, "strconv", "FormatInt") != nil || staticCalleeIs(in, "strconv", "Itoa") != nil
+	}, 0)
+	if !usesInt {
+		c.Pass("Q18", "sign-written-for-negative-requests@formatGB", fn.Pos(), "no integer part is formatted separately")
+		return
+	}
+	found := false
+	an.Instrs(fn, func(in ssa.Instruction) {
+		cl := an.AsCallAny(in)
+		if cl == nil || found {
+			return
+		}
+		minus := false
+		for _, a := range cl.Common().Args {
+			if k, ok := an.ConstVal(a); ok {
+				switch k.Kind() {
+				case constant.Int:
+					if v, exact := constant.Int64Val(k); exact && v == '-' {
+						minus = true
+					}
+				case constant.String:
+					if constant.StringVal(k) == "-" {
+						minus = true
+					}
+				}
+			}
+		}
+		if !minus {
+			return
+		}
+		if g, _ := an.GuardedBy(in, func(rel an.Rel) bool {
+			r := rel
+			if _, isK := an.ConstVal(r.X); isK {
+				r = r.Flip()
+			}
+			return r.Op == token.LSS && r.X == gb
+		}); g {
+			found = true
+		}
+	})
+	c.Check("Q18", "sign-written-for-negative-requests@formatGB", fn.Pos(), found,
+		"formatGB formats the whole GB as an integer but never writes '-' on the edge where the request is negative: for values between -1 and 0 the integer part is 0 and the sign is lost, `mem_gb = -0.5` (an adaptive request) is rewritten as `mem_gb = 0.5`")
+}
+
+// T13 (C07): every binding a wildcard expands to is type-checked.  `* = self` / `* = STRUCT_REF`
+// are expanded by compileWildcard into one binding per matching parameter, each of which goes
+// through BindStm.compile / compileParam like a binding the user wrote.  For a wildcard over a
+// collection of structs the expansion strips the collection dimensions before looking at the
+// members, so "the declared types are equal, nothing to check" is wrong exactly there: an `int[]`
+// is bound to an `int` parameter and the program is accepted.
+// Rule: in compileWildcard every path to the append of an expanded binding to the binding list has
+// passed a call that compiles the binding on all of its own paths (MustDo through helpers).
+func ruleT13(c *an.Ctx) {
+	fn := c.P.Func(pkgSyntax, "(*BindStms).compileWildcard")
+	listF := c.P.Field(pkgSyntax, "BindStms", "List")
+	if fn == nil || listF == nil {
+		c.Info("T13", "anchor(compileWildcard)", 0, "not found: not decided")
+		return
+	}
+	md := &an.MustDo{Pred: func(in ssa.Instruction) bool {
+		cl := an.AsCallAny(in)
+		if cl == nil {
+			return false
+		}
+		h := cl.Common().StaticCallee()
+		if h == nil || h.Signature.Recv() == nil || !strings.Contains(h.Signature.Recv().Type().String(), "BindStm") {
+			return false
+		}
+		return h.Name() == "compile" || h.Name() == "compileParam"
+	}, Depth: 3}
+	n := 0
+	an.Instrs(fn, func(in ssa.Instruction) {
+		st, ok := in.(*ssa.Store)
+		if !ok {
+			return
+		}
+		if _, f := an.FieldOfAddr(st.Addr); f != listF {
+			return
+		}
+		if _, isApp := an.IsBuiltinCall(st.Val, "append"); !isApp {
+			return
+		}
+		n++
+		w := an.Query{Fn: fn, Target: func(x ssa.Instruction) bool { return x == in },
+			Barrier: func(x ssa.Instruction) bool { return md.Instr(x, 0) }}.Find()
+		c.Check("T13", fmt.Sprintf("expanded-binding-is-type-checked@(*BindStms).compileWildcard#%d", n), st.Pos(), w == nil,
+			"a binding produced by the wildcard expansion is added to the list on a path that has not compiled it (BindStm.compile / compileParam on every path of the helper): the conversion from the source's type to the parameter's type is not checked, e.g. the member of a struct taken from an array of structs (an `int[]`) is accepted for an `int` parameter; "+c.WitnessString(w))
+	})
+	c.Floor("T13", "appends of expanded bindings in compileWildcard", n, 2)
+}
+
+// M14 (C13): a struct's file kind only moves upward.  Whether post-processing descends into a
+// struct-typed output is decided by StructType.isFile, the join of its members' kinds
+// (not-file < may-contain-paths < directory).  It is accumulated member by member in
+// StructMember.compile.  If a member's kind simply overwrites the accumulated one ("last member
+// wins"), `struct R(txt summary, string label)` ends as may-contain-paths: the nested file is never
+// moved to outs/ and _outs keeps pointing into the stage directory.
+// Rule: every store to StructType.isFile in StructMember.compile (and its helpers) is dominated by a
+// comparison that reads the current value of that field.
+func ruleM14(c *an.Ctx) {
+	fn := c.P.Func(pkgSyntax, "(*StructMember).compile")
+	f := c.P.Field(pkgSyntax, "StructType", "isFile")
+	if fn == nil || f == nil {
+		c.Info("M14", "anchor(StructMember.compile / StructType.isFile)", 0, "not found: not decided")
+		return
+	}
+	n := 0
+	for _, g := range append([]*ssa.Function{fn}, familyOf(c.P, fn, 1)...) {
+		if g.Pkg != fn.Pkg {
+			continue
+		}
+		an.Instrs(g, func(in ssa.Instruction) {
+			st, ok := in.(*ssa.Store)
+			if !ok {
+				return
+			}
+			if _, fld := an.FieldOfAddr(st.Addr); fld != f {
+				return
+			}
+			n++
+			key := accessKey(st.Addr)
+			readsCurrent := func(v ssa.Value) bool {
+				u, ok := v.(*ssa.UnOp)
+				return ok && u.Op == token.MUL && accessKey(u.X) == key
+			}
+			g2, _ := an.GuardedBy(st, func(rel an.Rel) bool {
+				return rel.Op != token.ILLEGAL && (readsCurrent(rel.X) || readsCurrent(rel.Y))
+			})
+			// or the stored value itself is computed from the current one (max(cur, k))
+			fromCur := false
+			if cl, ok := st.Val.(*ssa.Call); ok {
+				for _, a := range cl.Call.Args {
+					if readsCurrent(a) {
+						fromCur = true
+					}
+				}
+			}
+			c.Check("M14", fmt.Sprintf("struct-file-kind-only-moves-up@%s#%d", an.FnName(g), n), st.Pos(), g2 || fromCur,
+				"the file kind of the struct is overwritten with a member's kind without looking at the kind accumulated so far: a later non-file-bearing member (string, map) lowers `directory` to `may contain paths`, post-processing then does not descend into the struct and its files are not moved to outs/")
+		})
+	}
+	if n == 0 {
+		c.Info("M14", "anchor(stores to StructType.isFile)", 0, "none in StructMember.compile: not decided")
+	}
+}
+
+// G15 (C19): what a pass changed is accumulated over all files.  Refactor applies each removal
+// pass to every AST and records the edit (for the replay on the source files) if any file changed.
+// If the verdict of the last file overwrites the others', a pass that edits only an earlier file is
+// applied to the compiled ASTs but not recorded: the replay diverges and the edited program no
+// longer compiles.
+// Rule: in the refactoring package, a loop that calls Edit.Apply and carries a value computed from
+// Apply's count out of the loop computes it from the previous iteration's value as well.
+func ruleG15(c *an.Ctx) {
+	n := 0
+	for _, fn := range c.P.FuncsOf(pkgRefac) {
+		for hd, body := range naturalLoops(fn) {
+			var applies []*ssa.Call
+			for b := range body {
+				for _, in := range b.Instrs {
+					if cl, ok := in.(*ssa.Call); ok && cl.Call.IsInvoke() && cl.Call.Method.Name() == "Apply" {
+						applies = append(applies, cl)
+					}
+				}
+			}
+			if len(applies) == 0 {
+				continue
+			}
+			derives := func(v ssa.Value, from func(ssa.Value) bool) bool {
+				seen := map[ssa.Value]bool{}
+				var rec func(v ssa.Value, d int) bool
+				rec = func(v ssa.Value, d int) bool {
+					if v == nil || seen[v] || d > 10 {
+						return false
+					}
+					seen[v] = true
+					if from(v) {
+						return true
+					}
+					in, ok := v.(ssa.Instruction)
+					if !ok || !body[in.Block()] {
+						return false
+					}
+					for _, op := range in.Operands(nil) {
+						if op != nil && *op != nil && rec(*op, d+1) {
+							return true
+						}
+					}
+					return false
+				}
+				return rec(v, 0)
+			}
+			isApply := func(v ssa.Value) bool {
+				for _, a := range applies {
+					if v == ssa.Value(a) {
+						return true
+					}
+				}
+				return false
+			}
+			for _, in := range hd.Instrs {
+				ph, ok := in.(*ssa.Phi)
+				if !ok {
+					break
+				}
+				for i, e := range ph.Edges {
+					if !body[hd.Preds[i]] {
+						continue
+					}
+					// back edge value
+					if !derives(e, isApply) {
+						continue
+					}
+					if b, isB := ph.Type().Underlying().(*types.Basic); !isB || b.Info()&(types.IsBoolean|types.IsInteger) == 0 {
+						continue
+					}
+					n++
+					acc := e == ssa.Value(ph) || derives(e, func(v ssa.Value) bool { return v == ssa.Value(ph) })
+					c.Check("G15", "pass-verdict-accumulated-over-all-files@"+an.FnName(fn), ph.Pos(), acc,
+						"the value carried out of the loop over the ASTs is computed from the last Apply result only: a pass that changes an earlier file but not the last one counts as `nothing changed`, its edit is applied to the compiled ASTs but not recorded for the source files, and the replayed program no longer compiles")
+				}
+			}
+		}
+	}
+	c.Floor("G15", "loop-carried verdicts of Edit.Apply in the refactoring package", n, 2)
+}
+
+// I13 (C16): an integer mantissa is converted to float64 only if it is exactly representable.
+// Float literals (MRO text and JSON arguments) are converted by strconv.ParseFloat.  A hand-written
+// fast path `float64(mantissa) / 10^k` is correctly rounded only if the mantissa is below 2^53 (and
+// 10^k is exact); with up to 18 digits accumulated in a uint64 the value is rounded twice and about
+// one full-precision double in ten comes out one ulp off - a recorded invocation then shows another
+// number than the stage received.  (Seeded twice: rounds 7 and 9.)
+// Rule: in parseFloat and the functions of its package it calls, every conversion of a non-constant
+// integer to a floating-point type is dominated by an upper-bound comparison of that integer with a
+// constant not above 2^53.
+func ruleI13(c *an.Ctx) {
+	root := c.P.Func(pkgSyntax, "parseFloat")
+	if root == nil {
+		c.Info("I13", "anchor(parseFloat)", 0, "not found: not decided")
+		return
+	}
+	fam := []*ssa.Function{root}
+	an.Instrs(root, func(in ssa.Instruction) {
+		if cl := an.AsCallAny(in); cl != nil {
+			if h := cl.Common().StaticCallee(); h != nil && h.Blocks != nil && h.Pkg == root.Pkg {
+				fam = append(fam, h)
+			}
+		}
+	})
+	n := 0
+	for _, fn := range fam {
+		an.Instrs(fn, func(in ssa.Instruction) {
+			cv, ok := in.(*ssa.Convert)
+			if !ok {
+				return
+			}
+			from, okF := cv.X.Type().Underlying().(*types.Basic)
+			to, okT := cv.Type().Underlying().(*types.Basic)
+			if !okF || !okT || from.Info()&types.IsInteger == 0 || to.Info()&types.IsFloat == 0 {
+				return
+			}
+			if _, isC := cv.X.(*ssa.Const); isC {
+				return
+			}
+			n++
+			g, _ := an.GuardedBy(cv, func(rel an.Rel) bool {
+				r := rel
+				if _, isK := an.ConstVal(r.X); isK {
+					r = r.Flip()
+				}
+				k, isK := an.ConstVal(r.Y)
+				if !isK || k.Kind() != constant.Int || r.X != cv.X {
+					return false
+				}
+				lim := constant.MakeUint64(1 << 53)
+				switch r.Op {
+				case token.LSS:
+					return constant.Compare(k, token.LEQ, lim)
+				case token.LEQ:
+					return constant.Compare(k, token.LSS, lim)
+				}
+				return false
+			})
+			c.Check("I13", fmt.Sprintf("mantissa-exactly-representable@%s#%d", an.FnName(fn), n), cv.Pos(), g,
+				"an integer accumulated from the digits of a float literal is converted to floating point without a bound of 2^53: larger mantissas are rounded by the conversion and again by the scaling, so some 16-18 digit literals come out one ulp off (JSON 94.05090880450125 becomes 94.05090880450123 in the call text)")
+		})
+	}
+	if n == 0 {
+		c.Pass("I13", "float-literals-converted-by-the-library@parseFloat", root.Pos(), "no integer-to-float conversion in parseFloat and its helpers")
+	}
+}
+
+// W10 (C14): one chunk without a temp directory does not stop the cleanup of the others.
+// cleanChunkTemp collects every chunk's temp paths and gives up when enumerating fails.  A stage may
+// remove its own TMPDIR; the ENOENT for that one chunk used to abort the sweep on every call, so the
+// temp directories of all other chunks survived the completed pipestance and appeared in no report.
+// Rule: in the per-phase temp cleaners, a return taken because enumerateTemp failed is restricted
+// to errors that are not "does not exist" (false edge of os.IsNotExist / errors.Is(.., ErrNotExist)).
+func ruleW10(c *an.Ctx) {
+	n := 0
+	for _, name := range []string{"(*Fork).cleanChunkTemp"} {
+		fn := c.P.Func(pkgCore, name)
+		if fn == nil {
+			c.Info("W10", "anchor("+name+")", 0, "not found: not decided")
+			continue
+		}
+		an.Instrs(fn, func(in ssa.Instruction) {
+			cl, ok := in.(*ssa.Call)
+			if !ok || cl.Call.StaticCallee() == nil || cl.Call.StaticCallee().Name() != "enumerateTemp" {
+				return
+			}
+			// its error result
+			var errv ssa.Value
+			for _, r := range an.Referrers(cl) {
+				if ex, ok := r.(*ssa.Extract); ok && isErrorT(ex.Type()) {
+					errv = ex
+				}
+			}
+			if errv == nil {
+				return
+			}
+			// returns guarded by errv != nil inside the loop
+			an.Instrs(fn, func(x ssa.Instruction) {
+				r, ok := x.(*ssa.Return)
+				if !ok {
+					return
+				}
+				onErr, _ := an.GuardedBy(r, func(rel an.Rel) bool {
+					return rel.Op == token.NEQ && (rel.X == errv && an.IsNil(rel.Y) || rel.Y == errv && an.IsNil(rel.X))
+				})
+				if !onErr {
+					return
+				}
+				n++
+				tolerant, _ := an.GuardedBy(r, func(rel an.Rel) bool {
+					if rel.Op != token.ILLEGAL || rel.Truth {
+						return false
+					}
+					c2, ok := rel.X.(*ssa.Call)
+					if !ok || c2.Call.StaticCallee() == nil {
+						return false
+					}
+					h := c2.Call.StaticCallee()
+					if h.Name() == "IsNotExist" && len(c2.Call.Args) == 1 && c2.Call.Args[0] == errv {
+						return true
+					}
+					return h.Name() == "Is" && len(c2.Call.Args) == 2 && c2.Call.Args[0] == errv
+				})
+				c.Check("W10", fmt.Sprintf("missing-temp-directory-is-not-fatal@%s#%d", an.FnName(fn), n), r.Pos(), tolerant,
+					"the sweep over the chunks' temp directories is abandoned for any error of enumerateTemp, including `does not exist`: if the stage code removed one chunk's TMPDIR, the temp files of every other chunk are never removed and never reported")
+			})
+		})
+	}
+	if n == 0 {
+		c.Info("W10", "anchor(error exits after enumerateTemp)", 0, "none found: not decided")
+	}
+}
+
+// F16 (C06): unreadable outs of a stage without a join are the chunk's failure.  For a stage
+// that does not split, doJoin copies the chunk's _outs to the join's metadata.  If it copies them
+// unparsed, the parse error is only met in doComplete and recorded on the join; the partial reset
+// then resets the join, which copies the same bad file again - the stage code is never re-run and
+// every restart fails.
+// Rule: in Fork.doJoin every path to the store of the chunk's outs into join_metadata has parsed
+// them (Metadata.read / ReadInto of OutsFile on the chunk), unless the stage has no out parameters.
+func ruleF16(c *an.Ctx) {
+	fn := c.P.Func(pkgCore, "(*Fork).doJoin")
+	outs := c.P.Const(pkgCore, "OutsFile")
+	if fn == nil || outs == nil {
+		c.Info("F16", "anchor(doJoin/OutsFile)", 0, "not found: not decided")
+		return
+	}
+	hasOuts := func(cl ssa.CallInstruction) bool {
+		for _, a := range cl.Common().Args {
+			if an.IsConst(a, outs) {
+				return true
+			}
+		}
+		return false
+	}
+	parsed := func(in ssa.Instruction) bool {
+		cl := an.AsCallAny(in)
+		if cl == nil || cl.Common().StaticCallee() == nil {
+			return false
+		}
+		switch cl.Common().StaticCallee().Name() {
+		case "read", "ReadInto", "readInto":
+			return hasOuts(cl) && strings.Contains(accessKey(cl.Common().Args[0]), ".metadata")
+		}
+		return false
+	}
+	n := 0
+	an.Instrs(fn, func(in ssa.Instruction) {
+		cl := an.AsCallAny(in)
+		if cl == nil || cl.Common().StaticCallee() == nil || cl.Common().StaticCallee().Name() != "WriteRawBytes" || !hasOuts(cl) {
+			return
+		}
+		if !strings.HasSuffix(accessKey(cl.Common().Args[0]), ".join_metadata") {
+			return
+		}
+		n++
+		w := an.Query{Fn: fn, Target: func(x ssa.Instruction) bool { return x == in }, Barrier: parsed,
+			BarrierEdge: func(from, to *ssa.BasicBlock) bool {
+				// no out parameters: nothing to validate
+				return an.EdgeHolds(from, to, func(rel an.Rel) bool {
+					r := rel
+					if _, isK := an.ConstVal(r.X); isK {
+						r = r.Flip()
+					}
+					args, isLen := an.IsBuiltinCall(r.X, "len")
+					if !isLen || !an.IsIntConst(r.Y, 0) {
+						return false
+					}
+					return (r.Op == token.LEQ || r.Op == token.EQL) && strings.Contains(accessKey(args[0]), "List")
+				})
+			}}.Find()
+		c.Check("F16", fmt.Sprintf("chunk-outs-parsed-before-they-become-the-join's@(*Fork).doJoin#%d", n), in.Pos(), w == nil,
+			"the chunk's _outs are copied to the join's metadata without having been parsed: a truncated file is only detected in doComplete and blamed on the join, the partial reset re-copies the same file and the stage code is never re-run; "+c.WitnessString(w))
+	})
+	if n == 0 {
+		c.Info("F16", "anchor(copy of the chunk's outs in doJoin)", 0, "not found: not decided")
+	}
+}
+
+// P12 (C08): the static merge handles every kind of source with a known length.
+// MergeExp.BindingPath merges the results of a statically known map call by switching on the
+// source's call mode and panics in the default arm.  Arrays and maps of known length are handled;
+// `null` is a source of known length too (its mode is ModeNullMapCall) and reaches the switch when an
+// element of an outer split literal is null: MakeCallGraph panicked with "invalid merge kind null"
+// and mro check / mrp crashed on an accepted program.
+// Rule: in MergeExp.BindingPath every path to the panic of the static-merge switch has compared
+// the call mode with ModeNullMapCall (the arm exists).
+func ruleP12(c *an.Ctx) {
+	fn := c.P.Func(pkgSyntax, "(*MergeExp).BindingPath")
+	null := c.P.Const(pkgSyntax, "ModeNullMapCall")
+	if fn == nil || null == nil {
+		c.Info("P12", "anchor(MergeExp.BindingPath/ModeNullMapCall)", 0, "not found: not decided")
+		return
+	}
+	n := 0
+	an.Instrs(fn, func(in ssa.Instruction) {
+		pn, ok := in.(*ssa.Panic)
+		if !ok {
+			return
+		}
+		// only the panic that reports the call mode
+		mentionsMode := false
+		seen := map[ssa.Value]bool{}
+		var rec func(v ssa.Value, d int)
+		rec = func(v ssa.Value, d int) {
+			if v == nil || seen[v] || d > 6 {
+				return
+			}
+			seen[v] = true
+			if cl, ok := v.(*ssa.Call); ok {
+				nm := ""
+				if cl.Call.IsInvoke() {
+					nm = cl.Call.Method.Name()
+				} else if h := cl.Call.StaticCallee(); h != nil {
+					nm = h.Name()
+				}
+				if nm == "CallMode" {
+					mentionsMode = true
+				}
+			}
+			if i2, ok := v.(ssa.Instruction); ok {
+				for _, op := range i2.Operands(nil) {
+					if op != nil && *op != nil {
+						rec(*op, d+1)
+					}
+				}
+			}
+		}
+		rec(pn.X, 0)
+		if !mentionsMode {
+			return
+		}
+		n++
+		g, _ := an.GuardedBy(pn, func(rel an.Rel) bool {
+			return rel.Op == token.NEQ && (an.IsConst(rel.Y, null) || an.IsConst(rel.X, null))
+		})
+		c.Check("P12", fmt.Sprintf("static-merge-handles-null-sources@(*MergeExp).BindingPath#%d", n), pn.Pos(), g,
+			"the panic of the static-merge switch is reachable with the call mode of a null source (ModeNullMapCall is never compared): a null element in the outer split literal of a nested map call makes MakeCallGraph panic - mro check and mrp crash on a program the compiler accepted")
+	})
+	if n == 0 {
+		c.Info("P12", "anchor(call-mode panic in MergeExp.BindingPath)", 0, "none: not decided")
+	}
+}
+
+// I14 (C16): the members of a struct-typed value are converted with their own types.
+// convertToExp turns resolved argument values back into MRO expressions for the recorded
+// invocation.  For an object it decides struct-or-map from the type; the entries of a typed map all
+// have the element type, the members of a struct each have their declared type.  Converting every
+// member with the struct's own type wrote a map<int> member as a struct literal with unquoted keys,
+// and the recorded _invocation did not parse.
+// Rule: in convertToExp, the type argument of the recursive call made for each entry of an object
+// depends on the entry's key (a per-member lookup), not only on values fixed before the loop.
+func ruleI14(c *an.Ctx) {
+	fn := c.P.Func(pkgCore, "convertToExp")
+	if fn == nil {
+		c.Info("I14", "anchor(convertToExp)", 0, "not found: not decided")
+		return
+	}
+	tIdx := -1
+	for i, prm := range fn.Params {
+		if nm, _ := derefNamed(prm.Type()); nm == "TypeId" {
+			tIdx = i
+		}
+	}
+	if tIdx < 0 {
+		c.Info("I14", "anchor(TypeId parameter of convertToExp)", 0, "not found: not decided")
+		return
+	}
+	n := 0
+	for hd, body := range naturalLoops(fn) {
+		// loops over the sorted keys of an object: the body loads val[k] (a Lookup on a map)
+		var keyVals []ssa.Value
+		for b := range body {
+			for _, in := range b.Instrs {
+				if lk, ok := in.(*ssa.Lookup); ok {
+					if _, isMap := lk.X.Type().Underlying().(*types.Map); isMap {
+						keyVals = append(keyVals, lk.Index)
+					}
+				}
+			}
+		}
+		if len(keyVals) == 0 {
+			continue
+		}
+		for b := range body {
+			for _, in := range b.Instrs {
+				cl, ok := in.(*ssa.Call)
+				if !ok || cl.Call.StaticCallee() != fn || tIdx >= len(cl.Call.Args) {
+					continue
+				}
+				n++
+				// does the type argument depend on a key of this loop?
+				dep := false
+				seen := map[ssa.Value]bool{}
+				var rec func(v ssa.Value, d int)
+				rec = func(v ssa.Value, d int) {
+					if v == nil || seen[v] || d > 8 || dep {
+						return
+					}
+					seen[v] = true
+					for _, k := range keyVals {
+						if v == k {
+							dep = true
+							return
+						}
+					}
+					if i2, ok := v.(ssa.Instruction); ok && body[i2.Block()] {
+						for _, op := range i2.Operands(nil) {
+							if op != nil && *op != nil {
+								rec(*op, d+1)
+							}
+						}
+					}
+				}
+				rec(cl.Call.Args[tIdx], 0)
+				_ = hd
+				c.Check("I14", fmt.Sprintf("object-entries-converted-with-their-own-type@convertToExp#%d", n), cl.Pos(), dep,
+					"every entry of the object is converted with one type fixed before the loop: right for the values of a typed map, wrong for the members of a struct - a map<int> member of a struct-typed argument is written as a struct literal with unquoted keys and the recorded _invocation does not parse")
+			}
+		}
+	}
+	c.Floor("I14", "recursive conversions of object entries in convertToExp", n, 2)
+}
